@@ -84,7 +84,17 @@ let ext_cl (hist : string) (res : string) (out : string) =
                     Printf.fprintf oc "H %d %s\n" !idx hrest;
                     List.iter (fun l -> output_string oc (l ^ "\n")) prefix;
                     Printf.fprintf oc "E ADV %d\nE GW %s\nE ADV %d\nEND\n" d (hex_of_bytes (pack ack)) ((rcount + 2) * rdelay + 1507))
-                  (delays rdelay rcount))
+                  (delays rdelay rcount);
+                (* the same acknowledgement twice, each time just before the budget of the last progress runs
+                   out: an exchange that lets a repeated acknowledgement restart its retries outlives the bound
+                   of the call (C28) *)
+                let late = [rdelay - 1; (rcount + 1) * rdelay - 1] in
+                List.iter (fun d1 -> List.iter (fun d2 ->
+                    incr idx;
+                    Printf.fprintf oc "H %d %s\n" !idx hrest;
+                    List.iter (fun l -> output_string oc (l ^ "\n")) prefix;
+                    Printf.fprintf oc "E ADV %d\nE GW %s\nE ADV %d\nE GW %s\nE ADV %d\nEND\n" d1 (hex_of_bytes (pack ack)) d2
+                      (hex_of_bytes (pack ack)) (2 * (rcount + 2) * rdelay + 1507)) late) late)
               [Puback (nn 1, nn mid, nn 0); Pubrec (nn mid); Pubcomp (nn mid); Pubrel (nn mid); Regack (nn 7, nn mid, nn 0);
                Suback (nn 0, nn 7, nn mid, nn 0); Unsuback (nn mid)])
           mids)
